@@ -6,7 +6,7 @@ import concurrent.futures
 import json
 import random
 import vf
-from slices import actor, sysrun
+from slices import actor, root, sysrun
 
 
 def sys_campaign(ck, prop, n, families=None, gated_p=0.6, fail_p=0.25, workers=6, seed_base=0, hang_s=None, stop_on_first=False,
@@ -78,7 +78,7 @@ def two_invocations(ck, prop, n_quick=10, fail_p=0.7):
 
 
 def check_engine(ck, prop, projection, what, n_actor_quick=400, n_sys_quick=24, families=None, fail_p=0.25, gated_p=0.6,
-                 extra=None, clean_p=0.0):
+                 extra=None, clean_p=0.0, n_root_quick=0, root_projection=None, root_what='run status and relayed outputs'):
     quick = ck.tier == 'quick'
     n_actor = n_actor_quick if quick else n_actor_quick * 12
     n_sys = n_sys_quick if quick else n_sys_quick * 12
@@ -88,13 +88,17 @@ def check_engine(ck, prop, projection, what, n_actor_quick=400, n_sys_quick=24, 
             'process table; non-trivial = distinct (graph, roots, failing set, gating) with at least one script start')
     # 1. actor-level correspondence
     diffs = actor.run(ck, n_actor, project=projection, what=what)
+    # 1b. root-loop correspondence (the real engine::run vs the root steps of Sys.exec)
+    rdiffs = []
+    if n_root_quick:
+        rdiffs = root.run(ck, n_root_quick if quick else n_root_quick * 12, project=root_projection, what=root_what)
     # 2. system-level scenarios
     found = sys_campaign(ck, prop, n_sys, families=families, fail_p=fail_p, gated_p=gated_p, clean_p=clean_p)
     if extra:
         found += extra(ck)
     report_sys(ck, prop, found)
     # 3. correspondence broken: search for a failing input, else report the broken correspondence
-    if diffs and not found:
+    if (diffs or rdiffs) and not found:
         wider = sys_campaign(ck, prop, 60 if quick else 300, families=families, fail_p=fail_p, gated_p=gated_p, seed_base=1,
                              clean_p=clean_p)
         if wider:
@@ -102,9 +106,15 @@ def check_engine(ck, prop, projection, what, n_actor_quick=400, n_sys_quick=24, 
             ck.violation({'kind': 'system-run (found while searching around a broken actor correspondence)', 'what': texts,
                           'targets': obs['targets'], 'roots': obs['roots'], 'failing_scripts': obs['fail'],
                           'observed_trace': obs['trace'], 'outcome': obs['outcome'], 'exit_code': obs['exit_code'],
-                          'actor_difference': diffs[0]}, found_input=True)
-        else:
+                          'model_vs_code_difference': (diffs or rdiffs)[0]}, found_input=True)
+        elif diffs:
             ck.violation({'kind': 'correspondence', 'correspondence': 'Actor.actor_step vs the real target actor (projection: %s)' % what,
                           'difference': diffs[0], 'n_differences': len(diffs),
                           'searched': 'system-level scenarios found no violation of the property'}, found_input=False)
-    return diffs, found
+        else:
+            ck.violation({'kind': 'correspondence',
+                          'correspondence': 'Sys.exec root steps (LRoot, LRootIdle, LSignal, LRootSignal) vs the real engine::run '
+                                            '(projection: %s)' % root_what,
+                          'difference': rdiffs[0], 'n_differences': len(rdiffs),
+                          'searched': 'system-level scenarios found no violation of the property'}, found_input=False)
+    return diffs + rdiffs, found
